@@ -20,8 +20,10 @@ type Out = Result<Vec<Vec<u8>>, E>;
 
 fn explore(api: &Api, setting_ix: usize, style: u8, seed: u64, cx: &mut Cx) {
     let sp = api.spec;
-    // what the external key serializes to: a decoy private key (style 0) or an opaque handle that is no scalar (1)
+    // what the external key serializes to: a decoy private key (style 0), an opaque handle that is no scalar (1),
+    // nothing at all (2: type Len = U0) or a tagged handle longer than a scalar (3)
     api.r_style(style);
+    let style_name = ["decoy private key", "opaque bytes, not a scalar", "nothing (Len = U0)", "tagged handle of SkLen + 8 bytes"][style as usize];
     let p = setting(setting_ix);
     let fx = (|| -> Result<_, String> {
         let mut t = Tape::seeded(seed, &format!("c18/fx/{}", setting_ix));
@@ -47,19 +49,11 @@ fn explore(api: &Api, setting_ix: usize, style: u8, seed: u64, cx: &mut Cx) {
             return;
         }
     };
-    // the remote server's persisted setup = the direct one with the handle in place of the private key
-    let mut rsetup = setup.clone();
-    rsetup[skf.range()].copy_from_slice(&handle);
-    let with_handle = |v: Vec<Vec<u8>>| -> Vec<Vec<u8>> {
-        v.into_iter()
-            .map(|mut b| {
-                if b.len() == setup.len() {
-                    b[skf.range()].copy_from_slice(&handle);
-                }
-                b
-            })
-            .collect()
-    };
+    // the remote server's persisted setup = the direct one with the handle (of whatever length the external key
+    // serializes to: SkLen, 0, or SkLen + 8 bytes) in place of the private key
+    let splice = |b: &[u8]| -> Vec<u8> { [&b[..skf.start], &handle[..], &b[skf.start + skf.len..]].concat() };
+    let rsetup = splice(&setup);
+    let with_handle = |v: Vec<Vec<u8>>| -> Vec<Vec<u8>> { v.into_iter().map(|b| if b.len() == setup.len() { splice(&b) } else { b }).collect() };
     cx.context_done();
     let label = format!("seed{}/c18/op/{}", seed, setting_ix);
     let ops = ["keypair", "new_with_key", "setup_recode", "sreg_start", "slogin_start(record)", "slogin_start(no record)"];
@@ -101,7 +95,7 @@ fn explore(api: &Api, setting_ix: usize, style: u8, seed: u64, cx: &mut Cx) {
                 }
             }
         };
-        cx.begin_case(json!({"op": op, "setting": setting_ix, "handle_style": if style == 0 { "decoy private key" } else { "opaque bytes, not a scalar" }, "fail_at": null}));
+        cx.begin_case(json!({"op": op, "setting": setting_ix, "handle_style": style_name, "fail_at": null}));
         cx.state(&(op, style, 0usize));
         cx.edges += 2;
         cx.path();
@@ -122,7 +116,7 @@ fn explore(api: &Api, setting_ix: usize, style: u8, seed: u64, cx: &mut Cx) {
         cx.add("interface_calls_observed", log0.len() as u64);
         let calls = fallible.len();
         for n in 1..=calls + 1 {
-            cx.begin_case(json!({"op": op, "setting": setting_ix, "handle_style": if style == 0 { "decoy private key" } else { "opaque bytes, not a scalar" }, "fail_at": n, "fallible_calls_in_clean_run": fallible}));
+            cx.begin_case(json!({"op": op, "setting": setting_ix, "handle_style": style_name, "fail_at": n, "fallible_calls_in_clean_run": fallible}));
             cx.state(&(op, style, n));
             cx.edges += 1;
             cx.path();
@@ -153,7 +147,7 @@ pub fn run(tier: Tier, seed: u64) -> i32 {
     let mut items = vec![];
     for api in all_apis() {
         for s in 0..3 {
-            for style in 0..2u8 {
+            for style in 0..4u8 {
                 items.push((api, s, style));
             }
         }
@@ -167,7 +161,7 @@ pub fn run(tier: Tier, seed: u64) -> i32 {
         tier,
         seed,
         rule: "fault enumeration as an LTS: for each of 6 operations x 3 settings x 20 suites, the clean run and the runs with the external key failing at its n-th fallible interface call for every n in 1..calls+1; differential oracle against the direct-key server on the same tape".into(),
-        bounds: json!({"suites": 20, "settings": 3, "handle_styles": ["a decoy private key", "opaque bytes that are no scalar encoding"], "operations": 6, "fault_positions": "every n up to (calls made + 1)", "quick_equals_thorough": true}),
+        bounds: json!({"suites": 20, "settings": 3, "handle_styles": ["a decoy private key", "opaque bytes that are no scalar encoding", "zero bytes (type Len = U0, as in the crate's documentation)", "SkLen + 8 bytes"], "operations": 6, "fault_positions": "every n up to (calls made + 1)", "quick_equals_thorough": true}),
         assumptions: vec!["the external key is a harness-defined implementation of the public SecretKey trait wrapping the same private key".into()],
         exhaustive: true,
         crosscheck: json!(null),
